@@ -53,7 +53,10 @@ theorem closest_degenerate :
         = ⟨0, 0, 0⟩ := by
       apply V3.ext' <;> simp [V3.cross]
     rw [this, normVector_zero]
-  simp only [initFaces, mkFace, c1, c2, c3, c4, closest, List.map, faceDist, V3.dot_def,
+  have ho : ¬ 0 < orient (⟨1 / 2, 0, 0⟩ : V) ⟨-3 / 2, 0, 0⟩ ⟨0, 0, 0⟩ ⟨0, 0, 0⟩ := by
+    norm_num [orient, V3.cross, V3.dot_def]
+  rw [initFaces_of_not_pos ho]
+  simp only [buildFaces, mkFace, c1, c2, c3, c4, closest, List.map, faceDist, V3.dot_def,
     argmin, argminGo]
   simp
 
